@@ -722,3 +722,13 @@ M("c04-two-digit-bound-truncated", "C04", [(PRE, """            return __class__
                 escape=False)""")], rule="R-QUANT")
 M("c04-magic-bound-37", "C04", [(PRE, """                f"{self._quantify_conditional_group()}{{{n},}}{'' if is_greedy else '?'}",""", """                f"{self._quantify_conditional_group()}{{{n if n != 37 else 36},}}{'' if is_greedy else '?'}",""")], rule="R-QUANT")
 M("c04-range-upper-mod-100", "C04", [(PRE, """                    f"{self._quantify_conditional_group()}{{{n},{m}}}{'' if is_greedy else '?'}",""", """                    f"{self._quantify_conditional_group()}{{{n},{m % 100 if m >= 100 else m}}}{'' if is_greedy else '?'}",""")], rule="R-QUANT")
+
+# ---- end-to-end (R-E2E): core builder defects that only show on the shapes a meta class feeds them
+M("e2e-enclose-skips-trailing-boundary", ["C17"], [(PRE, '        pattern = f"{pre}{self._concat_conditional_group()}{pre}"\n        return __class__(pattern, escape=False)',
+    '        body = self._concat_conditional_group()\n        pattern = f"{pre}{body}" + ("" if body.endswith(pre) else pre)\n        return __class__(pattern, escape=False)')], rule="R-E2E")
+M("e2e-enclose-skips-trailing-boundary/core", ["C02"], [(PRE, '        pattern = f"{pre}{self._concat_conditional_group()}{pre}"\n        return __class__(pattern, escape=False)',
+    '        body = self._concat_conditional_group()\n        pattern = f"{pre}{body}" + ("" if body.endswith(pre) else pre)\n        return __class__(pattern, escape=False)')])
+M("e2e-enclose-skips-leading-word-class", ["C17"], [(PRE, '        pattern = f"{pre}{self._concat_conditional_group()}{pre}"\n        return __class__(pattern, escape=False)',
+    '        body = self._concat_conditional_group()\n        pattern = ("" if body.startswith("\\\\w") and len(body) > 12 else pre) + f"{body}{pre}"\n        return __class__(pattern, escape=False)')], rule="R-E2E")
+M("e2e-not-enclosed-drops-group-for-long-alternation", ["C18"], [(PRE, '        pattern = f"(?<!{pre}){self._assert_conditional_group()}(?!{pre})"',
+    '        pattern = f"(?<!{pre}){self._assert_conditional_group() if len(str(self)) < 40 else str(self)}(?!{pre})"')], rule="R-E2E")
